@@ -124,7 +124,21 @@ def _locate_droplets_in_mask_cartesian(mask: ScalarField) -> Emulsion:
     volumes = ndimage.sum(mask.data, labels, index=indices)
     volumes = np.asanyarray(volumes) * cell_volume
 
-    # connect clusters linked viaperiodic boundary conditions
+    # connect clusters linked via periodic boundary conditions. The original labels are
+    # kept and a union-find structure stores for each cluster its parent and by how
+    # many periods it is shifted with respect to this parent, so all parts of a merged
+    # cluster are expressed in the same frame of reference when they are combined.
+    parent = np.arange(num_labels + 1)
+    shifts = np.zeros((num_labels + 1, grid.num_axes), dtype=int)
+
+    def find_root(i: int) -> tuple[int, np.ndarray]:
+        """Return root of cluster `i` and its shift (in periods) relative to it."""
+        shift = np.zeros(grid.num_axes, dtype=int)
+        while parent[i] != i:
+            shift += shifts[i]
+            i = parent[i]
+        return i, shift
+
     for ax in np.flatnonzero(grid.periodic):  # look at all periodic axes
         # compile list of all boundary points connected along the current axis
         low: list[list[int] | np.ndarray] = []
@@ -140,21 +154,30 @@ def _locate_droplets_in_mask_cartesian(mask: ScalarField) -> Emulsion:
         # iterate over all boundary points
         for l, h in zip(product(*low), product(*high)):
             i_l, i_h = labels[l], labels[h]
-            if i_l > 0 and i_h > 0 and i_l != i_h:
+            if i_l > 0 and i_h > 0:
                 # boundary condition on the low side connects to that of the high side
-                # -> we combine the cluster into one, setting is new position as the
-                # weighted averages of the center of mass
-                v_l, v_h = volumes[i_l - 1], volumes[i_h - 1]
-                pos_l, pos_h = positions[i_l - 1], positions[i_h - 1]
-                pos_h[ax] -= grid.shape[ax]  # wrap around the upper point
-                pos = (pos_l * v_l + pos_h * v_h) / (v_l + v_h)
-                # update both clusters with the new data
-                positions[i_h - 1] = positions[i_l - 1] = pos
-                volumes[i_h - 1] = volumes[i_l - 1] = v_l + v_h
-                labels[labels == i_h] = i_l
+                root_l, shift_l = find_root(i_l)
+                root_h, shift_h = find_root(i_h)
+                if root_l != root_h:
+                    # -> we combine the clusters into one, where the cluster on the
+                    # high side is wrapped around by one period
+                    parent[root_h] = root_l
+                    shifts[root_h] = shift_l - shift_h
+                    shifts[root_h, ax] -= 1
+
+    # combine the data of connected clusters using volume-weighted centers of mass
+    positions_sum = np.zeros_like(positions)
+    volumes_sum = np.zeros_like(volumes)
+    for i in range(1, num_labels + 1):
+        root, shift = find_root(i)
+        pos = positions[i - 1] + shift * np.asarray(grid.shape)
+        positions_sum[root - 1] += volumes[i - 1] * pos
+        volumes_sum[root - 1] += volumes[i - 1]
 
     # determine which clusters are actually present
-    indices = np.array(sorted(set(np.unique(labels)) - {0}))
+    indices = np.flatnonzero(parent[1:] == np.arange(1, num_labels + 1)) + 1
+    positions[indices - 1] = positions_sum[indices - 1] / volumes_sum[indices - 1, None]
+    volumes[indices - 1] = volumes_sum[indices - 1]
 
     # create the list of droplets
     positions = grid.normalize_point(grid.transform(positions, "cell", "grid"))
